@@ -254,6 +254,17 @@ def gen_op(rng, st):
     for _ in range(rng.randrange(0, 3)):
         ops.append(rng.choice([{'op': 'clock_jump', 'seconds': rng.choice([1, 86400, -3600, 31622400])},
                                {'op': 'collect'}]))
+    if rng.random() < 0.25:
+        # history: someone saved a file this flavour cannot fully represent
+        # (unsigned / 64-bit attributes in a classic flavour, an object attribute);
+        # that save may warn or raise - it is not judged - but later saves must
+        # be unaffected by it
+        ops.append({'op': 'odd_save', 'file': 'odd%d.nc' % cid,
+                    'fmt': rng.choice(['NETCDF3_CLASSIC', 'NETCDF4_CLASSIC', 'NETCDF3_64BIT_OFFSET']),
+                    'names': rng.sample(['title', 'history', 'ival', 'fval', 'farr', 'iarr',
+                                         'units', 'long_name', 'scale', 'valid', 'flag', 'arr',
+                                         'Conventions', 'source', 'n_levels'], 4),
+                    'kind': rng.choice(['u2', 'u8', 'i8', 'obj'])})
     fmt = rng.choice(c['flavours'])
     cl = rng.choice([1, 4, 9]) if rng.random() < c['compress'] else 0
     ops.append({'op': 'save', 'cid': cid, 'spec': gen_spec(rng, fmt, c.get('big', 0.0)), 'fmt': fmt,
@@ -398,6 +409,32 @@ def apply(st, op):
                 if d:
                     raise Violation('reopened-file-differs', 'after collect: ' + d[0][1],
                                     sig={'field': d[0][0], 'which': 'path'})
+    elif o == 'odd_save':
+        import PseudoNetCDF as pnc
+        g = pnc.PseudoNetCDFFile()
+        g.createDimension('x', 2)
+        v = g.createVariable('V', 'f', ('x',))
+        v[:] = [1., 2.]
+        val = {'u2': np.uint16(7), 'u8': np.array([1, 2], dtype='u8'),
+               'i8': np.int64(2 ** 40), 'obj': {'a': 1}}[op['kind']]
+        for i, n in enumerate(op['names']):
+            try:
+                if i % 2 == 0:
+                    setattr(g, n, val)
+                else:
+                    setattr(v, n, val)
+            except BaseException:
+                pass
+        try:
+            h = g.save(w.path(op['file']), format=op['fmt'], verbose=0)
+            try:
+                h.close()
+            except BaseException:
+                pass
+            obs['note'] = 'ok'
+        except BaseException as e:
+            obs['note'] = 'raised ' + type(e).__name__
+        w.fault('history_out_of_envelope_save')
     elif o == 'save':
         try:
             f = build_source(op['spec'])
